@@ -133,6 +133,8 @@ ALPHA = ["Em", "Ei", "Ej", "El", "Ek", "Di", "Dj", "R", "Rr"]
 #   Nm Nj     same-size rewrite through a NEW inode (os.replace) with the mtime restored
 #   Zm Zj Zi Zk / Ym Yj Yi Yk  edit sub/main, sub/inc, inc, sub/lib to content with a syntax error / that is not UTF-8
 #   Rt        render w/top.txt (the working directory is w/ in the "cwdsub" cases); Rc render the top of an include chain
+#   Rl Rp     render lk/main.txt (symbolic link to ../sub/main.txt) / pl/main.txt (pl is a symbolic link to deep/d2)
+#   Pm Pd     re-point the file link to ../main.txt / the directory link to deep (no main.txt there)
 #   Br Bc Bd Bx Ba Be  a SECOND engine is constructed that differs in relative_includes / cache_enabled / root_dir / context /
 #             python allow-list / encoding and stays alive; Ub renders two templates with it
 ADV = ["Lm", "Lj", "Li", "Sm", "Sj", "Si", "Sk", "Sl", "Nm", "Nj"]
@@ -157,6 +159,8 @@ def interpret(c, engine):
     results = []
     cur = {}
 
+    links = {}        # alias path -> target path: a symbolic link is, for the model, a second path with the target's content
+
     def edit(rel, content, mode="normal"):
         engine.edit(rel, content, mode)
         steps.append(("edit", rel, content, mode in ("inplace", "newinode")))      # in place / new inode: the mtime is kept
@@ -164,6 +168,17 @@ def interpret(c, engine):
             cur.pop(rel, None)
         else:
             cur[rel] = content
+        for alias, tgt in links.items():
+            if tgt == rel:
+                steps.append(("edit", alias, content, mode in ("inplace", "newinode")))
+
+    def link(alias, link_text, target_rel, alias_file=None):
+        """(re-)point the symbolic link `alias` (file or directory) to link_text; alias_file -> target_rel is the one
+        template reached through it"""
+        engine.link(alias, link_text)
+        a = alias_file or alias
+        links[a] = target_rel
+        steps.append(("edit", a, cur.get(target_rel) if target_rel else None, False))
 
     def render(rel, ctx, hook=None):
         res, fired = engine.render(rel, ctx, None if hook is None else (hook[0], cur.get(hook[0]), hook[1]))
@@ -177,6 +192,17 @@ def interpret(c, engine):
         if p == "w/top.txt" and c.get("top_variant"):
             ct = ([(0, "T["), (1, "a"), (0, "]"), (c["top_variant"][1], c["top_variant"][0]), (0, "|"), (3, c["top_variant"][2])], "XT")
         edit(p, main_content(0, c["main_variant"]) if (p == "sub/main.txt" and c.get("main_variant")) else ct)
+    if c.get("symlinks"):
+        # lk/main.txt -> ../sub/main.txt (a link to a FILE, with other files next to the link than next to the target);
+        # pl -> deep/d2 (a link to a DIRECTORY whose parent differs from the link's parent)
+        edit("lk/inc.txt", inc_content("Q", 0))
+        edit("lk/lib.txt", lib_content("QL", 0))
+        edit("lk/leaf.txt", leaf_content("lkleaf"))
+        edit("up.txt", ([(0, "<up at the root>")], ""))
+        edit("deep/up.txt", ([(0, "<up below deep>")], ""))
+        edit("deep/d2/main.txt", ([(0, "D["), (1, "a"), (0, "]"), (2, "../up.txt"), (0, "|"), (4, "../nosuch.txt")], ""))
+        link("lk/main.txt", "../sub/main.txt", "sub/main.txt")
+        link("pl", "deep/d2", "deep/d2/main.txt", alias_file="pl/main.txt")
     if c.get("chain"):
         # a chain of includes of the given depth through files with long names
         depth, pad = c["chain"]
@@ -208,6 +234,14 @@ def interpret(c, engine):
             engine.use_other()
         elif h[0] in "ZY" and len(h) == 2:           # edit to content that does not compile (Z syntax error, Y not UTF-8)
             edit(OP_PATH[h[1]], ([], "broken%d" % k, 1 if h[0] == "Z" else 2))
+        elif h == "Rl":
+            render("lk/main.txt", [("a", "la%d" % k), ("b", "lb%d" % k)])
+        elif h == "Rp":
+            render("pl/main.txt", [("a", "pa%d" % k)])
+        elif h == "Pm":                              # the file link is re-pointed to another template
+            link("lk/main.txt", "../main.txt", "main.txt")
+        elif h == "Pd":                              # the directory link is re-pointed to a directory without main.txt
+            link("pl", "deep", None, alias_file="pl/main.txt")
         elif h == "Rt":
             render("w/top.txt", [("a", "ta%d" % k)])
         elif h == "Rc":
@@ -255,6 +289,13 @@ class RealEngine:
         if c["base"]:
             cfg["context"] = dict(c["base"])
         self.eng = J.get_instance(cfg)
+
+    def link(self, alias, link_text):
+        p = os.path.join(self.T, alias)
+        os.makedirs(os.path.dirname(p), exist_ok=True)
+        if os.path.islink(p) or os.path.exists(p):
+            os.unlink(p)
+        os.symlink(link_text, p)
 
     def other(self, what):
         """a second live engine that differs in one per-engine setting: r relative_includes, c cache_enabled,
@@ -351,8 +392,11 @@ class RealEngine:
 def run_engine(c):
     T = tmp()
     for name in os.listdir(T):
-        shutil.rmtree(os.path.join(T, name), ignore_errors=True) if os.path.isdir(os.path.join(T, name)) \
-            else os.unlink(os.path.join(T, name))
+        q = os.path.join(T, name)
+        if os.path.islink(q) or not os.path.isdir(q):
+            os.unlink(q)
+        else:
+            shutil.rmtree(q, ignore_errors=True)
     old = os.getcwd()
     os.makedirs(os.path.join(T, "w"), exist_ok=True)
     os.chdir(os.path.join(T, "w") if c.get("cwdsub") else T)
@@ -545,6 +589,15 @@ class C17(Check):
         for root, cache, rel in self.configs():
             for chain in ((17, 10), (40, 200)) if tier != "quick" or (root, cache) in ((False, True), (True, True)) else ((17, 200),):
                 yield {"kind": 0, "root": root, "cache": cache, "rel": rel, "base": [], "relname": False, "chain": chain, "history": ["Rc", "Rc"]}
+        # symbolic links in the tree: a template reached through a link to the FILE or through a link to a parent DIRECTORY
+        # resolves its relative includes next to the path it was ASKED for (the loaders never resolve links); re-pointing a
+        # link is an edit of that path. The expectation comes from the model, not from a fresh engine.
+        for root, cache, rel in self.configs():
+            for h in (["Rl", "Rp"], ["Rl", "Em", "Rl", "Ej", "Rl"], ["Rl", "Pm", "Rl", "Rl"], ["Rp", "Pd", "Rp", "Rl"],
+                      ["R", "Rl", "Pm", "Rl", "R"], ["Rp", "Rl", "Sm", "Rl"] if not root else ["Rp", "Rl"]):
+                n += 1
+                yield {"kind": 0, "root": root, "cache": cache, "rel": rel, "base": [], "relname": (n % 2 == 0), "symlinks": True,
+                       "history": h}
         # two live engines: a second engine that differs in one per-engine setting is constructed (and used) between
         # renders of the first; the first engine's renders are those of its own history (C17_engines_independent)
         for root, cache, rel in self.configs():
@@ -671,7 +724,7 @@ class C17(Check):
             return {"root_dir": c["root"], "cache_enabled": c["cache"], "relative_includes": c["rel"],
                     "config_context": repr(c["base"]), "caller_context": repr(c.get("caller")), "relative_template_name": c["relname"],
                     "history": c["history"], "working_directory_is_w/": bool(c.get("cwdsub")),
-                    "w/top.txt(include name, kind, import name)": c.get("top_variant"), "include_chain(depth, name padding)": c.get("chain"),
+                    "w/top.txt(include name, kind, import name)": c.get("top_variant"), "include_chain(depth, name padding)": c.get("chain"), "symbolic_links_in_the_tree": bool(c.get("symlinks")),
                     "sub/main.txt(include name, 2=include 4=ignore missing, import name)": c.get("main_variant"),
                     "legend": "setup writes 8 files; Em/Ei/Ej/El/Ek edit sub/main, inc, sub/inc, lib, sub/lib; Di/Dj delete "
                               "inc, sub/inc; R renders sub/main.txt, Rr renders main.txt",
